@@ -606,7 +606,9 @@ class Gen:
         ws = []
         for t in ts:
             if t == 's' and rng.random() < 0.6:
-                ws.append(rng.choice(['hi', '/a/b', '/a/', 'x.y', 'a.b']))
+                ws.append(rng.choice(['hi', '/a/b', '/a/', 'x.y', 'a.b', '7']))
+            elif t in ('u', 'i') and rng.random() < 0.5:
+                ws.append(7)       # prints like the rule value '7': an argN rule must not match a non-string argument
             else:
                 ws.append(mc.gen_w(rng, t, 2))
         return ts, ws
@@ -682,7 +684,7 @@ class Gen:
         if rng.random() < 0.1:
             items.append("sender='%s'" % rng.choice([':1.2', 'a.b']))
         if rng.random() < 0.15:
-            items.append("arg0='%s'" % rng.choice(['hi', 'a.b', '/a/b']))
+            items.append("arg0='%s'" % rng.choice(['hi', 'a.b', '/a/b', '7']))
         if rng.random() < 0.1:
             items.append("arg%dpath='%s'" % (rng.choice([0, 1]), rng.choice(['/a/', '/a/b'])))
         if not items:
